@@ -243,7 +243,7 @@ def bounded_roundtrips(seed, quick):
     ev = 0
     try:
         mags = [1.0, -1.0, 1e-30, -3.7e99, 2.5e-99, 1.7976931348623157e308, -2.2250738585072014e-308, 123456.789]
-        shapes = [(1, 1), (3, 2), (5, 4), (6, 1), (1, 7), (4, 6)]
+        shapes = [(1, 1), (3, 2), (5, 4), (6, 1), (1, 7), (4, 6), (3, 0), (0, 2), (0, 0)]
         combos = []
         for binary in (True, False):
             for endian in (("<", ">") if binary else ("=",)):
@@ -270,7 +270,7 @@ def bounded_roundtrips(seed, quick):
                                 M[bad] = -M[bad]
                             if cplx:
                                 M = M + 1j * rng.randn(r, c) * (rng.rand(r, c) < 0.4)
-                            if rng.rand() < 0.2:
+                            if rng.rand() < 0.2 and c > 0:
                                 M[:, rng.randint(c)] = 0
                             if rng.rand() < 0.1:
                                 M[:] = 0
